@@ -311,6 +311,24 @@ func (x *Unit) externalCall(st *State, pc *preparedCall) []Term {
 		}
 		x.U.Fun("wraps", []*Sort{SIface, SIface}, SBool)
 		return []Term{r}
+	case "errors.Join":
+		// nil iff every argument is nil; otherwise a fresh error that wraps every non-nil argument
+		r := x.freshVal("err", SIface, resT(0))
+		wr := x.U.Fun("wraps", []*Sort{SIface, SIface}, SBool)
+		va := pc.args[0]
+		n := len(pc.call.Args)
+		if pc.call.Ellipsis != token.NoPos {
+			x.fail(pc.node, "errors.Join with a spread slice")
+		}
+		allNil := True
+		for i := 0; i < n; i++ {
+			el := Select(x.U.SliceArr(va), IntLit(int64(i)))
+			allNil = And(allNil, x.U.IsNilIface(el))
+			x.assume(st, Implies(Not(x.U.IsNilIface(el)), T("("+wr+" "+r.S+" "+el.S+")", SBool)))
+		}
+		x.assume(st, Eq(x.U.IsNilIface(r), allNil))
+		x.newErrs = append(x.newErrs, r)
+		return []Term{r}
 	case "context.Background", "context.TODO":
 		c := x.U.Const("ctx.Background", SIface)
 		x.assumeOnce("(not ((_ is nilI) ctx.Background))")
